@@ -1403,6 +1403,9 @@ class Engine:
         return self.get_attr(base, node.attr, node)
 
     def get_attr(self, base, attr, node):
+        from .prelude import OpaqueVal
+        if isinstance(base, OpaqueVal):
+            return base
         if isinstance(base, SuperProxy):
             return BoundMethod(base.path, base.obj, attr, sup=base.cls)
         if isinstance(base, ModRef):
@@ -1487,6 +1490,8 @@ class Engine:
         raise Unsupported(f"slice of {type(base).__name__} (line {getattr(node, 'lineno', '?')})")
 
     def subscript(self, base, idx, node):
+        if type(base).__name__ == "OpaqueVal":
+            return base
         if isinstance(base, GraphEdges):
             # G.edges[(a, b)]: the attribute dictionary of that edge (one dictionary for both orientations)
             g = base.graph
@@ -1836,6 +1841,8 @@ class Engine:
         return self.call(fn, args, kwargs, node)
 
     def call(self, fn, args, kwargs, node):
+        if type(fn).__name__ == "OpaqueVal":
+            return fn
         if isinstance(fn, ModRef):
             impl = self.prelude.get(fn.dotted)
             if impl is None and "." in fn.dotted:
